@@ -41,6 +41,7 @@ type c18Conn struct {
 	mu     sync.Mutex
 	chunks [][]byte
 	closed bool
+	peer   net.IP // the client's address (nil: 127.0.0.1)
 }
 
 func (c *c18Conn) Read(p []byte) (int, error) {
@@ -75,8 +76,13 @@ func (c *c18Conn) Close() error {
 	c.log.add(map[string]any{"t": "close"})
 	return nil
 }
-func (c *c18Conn) LocalAddr() net.Addr                { return &net.TCPAddr{IP: net.IPv4(127, 0, 0, 1), Port: 1080} }
-func (c *c18Conn) RemoteAddr() net.Addr               { return &net.TCPAddr{IP: net.IPv4(127, 0, 0, 1), Port: 40000} }
+func (c *c18Conn) LocalAddr() net.Addr { return &net.TCPAddr{IP: net.IPv4(127, 0, 0, 1), Port: 1080} }
+func (c *c18Conn) RemoteAddr() net.Addr {
+	if c.peer != nil {
+		return &net.TCPAddr{IP: c.peer, Port: 40000}
+	}
+	return &net.TCPAddr{IP: net.IPv4(127, 0, 0, 1), Port: 40000}
+}
 func (c *c18Conn) SetDeadline(t time.Time) error      { return nil }
 func (c *c18Conn) SetReadDeadline(t time.Time) error  { return nil }
 func (c *c18Conn) SetWriteDeadline(t time.Time) error { return nil }
@@ -147,6 +153,7 @@ type c18SCase struct {
 	UDP    bool     `json:"udp"`
 	Chunks []string `json:"chunks"`
 	Tail   int      `json:"tail"` // offset of the first byte behind a well-formed CONNECT request, -1 = n/a
+	Peer   string   `json:"peer"` // the client's IP address ("" = 127.0.0.1): the gate must not depend on it
 }
 
 func TestVerifC18Socks(t *testing.T) {
@@ -184,7 +191,7 @@ func TestVerifC18Socks(t *testing.T) {
 func c18Socks(t *testing.T, c c18SCase, res map[string]any) {
 	log := &c18Log{}
 	var stream []byte
-	conn := &c18Conn{log: log}
+	conn := &c18Conn{log: log, peer: net.ParseIP(c.Peer)}
 	for _, h := range c.Chunks {
 		b := vUnhex(h)
 		conn.chunks = append(conn.chunks, b)
